@@ -4,7 +4,7 @@ use crate::cases::*;
 use crate::oracle::*;
 use crate::support::*;
 use linfa::Float;
-use linfa_nn::distance::{Distance, L1Dist, L2Dist, LInfDist};
+use linfa_nn::distance::{Distance, L1Dist, L2Dist, LInfDist, LpDist};
 use rand_xoshiro::rand_core::SeedableRng;
 use rand_xoshiro::Xoshiro256Plus;
 use vengine::Obs;
@@ -18,6 +18,8 @@ macro_rules! dispatch {
             (false, Metric::L2) => $f::<f64, _>($($arg),*, L2Dist),
             (false, Metric::L1) => $f::<f64, _>($($arg),*, L1Dist),
             (false, Metric::LInf) => $f::<f64, _>($($arg),*, LInfDist),
+            (true, Metric::Lp(q)) => $f::<f32, _>($($arg),*, LpDist(q as f32)),
+            (false, Metric::Lp(q)) => $f::<f64, _>($($arg),*, LpDist(q)),
         }
     };
 }
@@ -43,6 +45,9 @@ fn classify<F: Float>(c: &Case, pr: &Prep<F>, obs: &mut Obs) -> (bool, bool) {
         Metric::L2 => "metric_l2",
         Metric::L1 => "metric_l1",
         Metric::LInf => "metric_linf",
+        Metric::Lp(q) if q.fract() != 0.0 => "metric_lp_fractional",
+        Metric::Lp(q) if (q as i64) % 2 == 1 => "metric_lp_odd_whole",
+        Metric::Lp(_) => "metric_lp_even_whole",
     });
     obs.class(match &c.init {
         Init::Random => "init_random",
@@ -520,6 +525,37 @@ fn large_impl<F: Float, D: Distance<F>>(c: &LargeCase, obs: &mut Obs, dist: D) {
         _ => "init_para",
     });
     obs.class(if c.f32_ { "f32" } else { "f64" });
+    obs.class_if(c.n >= 2048, "n_ge_2048");
+    obs.class_if(c.n >= 2048 && c.n % 256 != 0, "n_ge_2048_not_multiple_of_256");
+    obs.class_if(c.n % 64 == 0, "n_multiple_of_64");
+    obs.class_if(c.n % 64 == 1 || c.n % 64 == 63, "n_multiple_of_64_plus_minus_1");
+    // one Lloyd step (budgets 1 and 2) from k distinct training rows as precomputed start: the
+    // recurrence, the statistics and the structure are judged exactly as in `trajectory`
+    {
+        let mut g = vengine::gen::SplitMix(c.seed ^ 0x5eed);
+        let mut picks: Vec<usize> = vec![];
+        while picks.len() < c.k {
+            let i = g.below(c.n);
+            if !picks.contains(&i) {
+                picks.push(i);
+            }
+        }
+        let c0: Vec<Vec<f64>> = picks.iter().map(|&i| data.rows[i].clone()).collect();
+        let tc = Case {
+            data: data.clone(),
+            k: c.k,
+            metric: c.metric,
+            init: Init::Precomputed(c0),
+            max_iter: 1,
+            tol: Tol::T1e4,
+            n_runs: 1,
+            seed: c.seed,
+            queries: vec![],
+            c0_layout: Layout::RowMajor,
+            query_layout: Layout::RowMajor,
+        };
+        trajectory_impl::<F, D>(&tc, obs, dist.clone());
+    }
     let tol = 1e-4;
     let rng = Xoshiro256Plus::seed_from_u64(c.seed);
     let Some(f) = fit(obs, &pr, c.k, rng, dist.clone(), &init, Layout::RowMajor, 300, tol, c.n_runs) else { return };
